@@ -104,9 +104,10 @@ PENDING_FINDINGS = {
     'compiler:error:reference-to-introspectable-0:interface:implements':
         'an interface annotated (skip) is still listed in <implements name="X"/> of an introspectable class; the '
         'compiler drops X and fails with "type reference \'X\' not found"',
-    'api:union.deprecated:g_base_info_is_deprecated=0':
-        'the compiler sets UnionBlob.deprecated, but g_base_info_is_deprecated() has no case for GI_INFO_TYPE_UNION and '
-        'answers FALSE (repository API, gibaseinfo.c)',
+    'compiler:fatal:accessor-of-introspectable-0-property':
+        'a property annotated (skip) is written <property introspectable="0">, but the method named in its (getter)/(setter) '
+        'annotation (or annotated (get-property)/(set-property)) keeps glib:get-property / glib:set-property; the compiler drops '
+        'the property and then dies in post-processing with "Unknown property X:p for accessor f" (g_error, no typelib)',
     'flag:signal:when=must-collect:typelib=run_cleanup':
         'when="must-collect" (written verbatim from the runtime dump) is not a value start_glib_signal knows; the '
         'final else branch silently makes it RUN_CLEANUP',
@@ -1163,11 +1164,29 @@ def b(e, attr, default=False):
     return v == '1'
 
 
+def cmp_attrs(d, what, path, e, info):
+    """the <attribute name= value=/> children of an introspectable element are key/value pairs the typelib exposes for it"""
+    if info is None or 'attributes' not in info:
+        return
+    exp = {}
+    for x in kids(e, 'attribute'):
+        exp[x.get('name')] = x.get('value')
+    got = dict((k, v) for k, v in info['attributes'].items() if k != '_')
+    # what the GIR states must be there; more is not forbidden by the statement (the compiler itself records the
+    # c:identifier of an enumeration member as an attribute)
+    missing = sorted(k for k in exp if k not in got)
+    differ = sorted(k for k in exp if k in got and exp[k] != got[k])
+    if missing or differ:
+        d.add('attributes:%s:%s' % (what, 'missing' if missing else 'value'),
+              '%s: GIR states attributes %r on the <%s>, the typelib has %r' % (path, exp, what, got))
+
+
 def cmp_callable(d, path, e, a, is_signal=False):
     rv = kids(e, 'return-value')
     if rv:
         rv = rv[0]
         ret = a.get('ret', {})
+        cmp_attrs(d, 'return-value', path, rv, ret)
         d.flag('return.transfer-ownership', path, rv.get('transfer-ownership'), ret.get('transfer'))
         d.flag('return.nullable', path, b(rv, 'nullable'), ret.get('nullable'))
         d.flag('return.skip', path, b(rv, 'skip'), ret.get('skip'))
@@ -1198,6 +1217,7 @@ def cmp_callable(d, path, e, a, is_signal=False):
         d.flag('parameter:scope', pp, p.get('scope', 'invalid'), x.get('scope'))
         d.flag('parameter:closure', pp, int(p.get('closure', '-1')), x.get('closure'))
         d.flag('parameter:destroy', pp, int(p.get('destroy', '-1')), x.get('destroy'))
+        cmp_attrs(d, 'parameter', pp, p, x)
 
 
 def cmp_function(d, path, e, a):
@@ -1227,6 +1247,7 @@ def cmp_methods(d, path, e, a):
         m = got[sym]
         d.flag('function.name', path + '.' + str(sym), exposed_name(c), m.get('name'))
         cmp_function(d, '%s.%s' % (path, exposed_name(c)), c, m)
+        cmp_attrs(d, local(c.tag), '%s.%s' % (path, exposed_name(c)), c, m)
     for c in exp:
         if hidden(c) and c.get(qn('c:identifier')) in got:
             d.add('present:%s:hidden' % local(c.tag), '%s: <%s c:identifier=%r> is introspectable="0"/shadowed in the GIR but present'
@@ -1265,6 +1286,7 @@ def cmp_fields(d, path, e, a, owner):
             f = gotn[name]
             d.flag('field:readable', '%s.%s' % (path, name), b(c, 'readable', True), f.get('readable'))
             d.flag('field:writable', '%s.%s' % (path, name), b(c, 'writable', False), f.get('writable'))
+            cmp_attrs(d, 'field', '%s.%s' % (path, name), c, f)
             cbk = kids(c, 'callback')
             if cbk:
                 ty = f.get('type', {})
@@ -1295,6 +1317,7 @@ def cmp_property(d, path, c, p):
     d.flag('property:construct-only', path, b(c, 'construct-only'), p.get('construct_only'))
     d.flag('property:transfer-ownership', path, c.get('transfer-ownership', 'none'), p.get('transfer'))
     d.flag('property:deprecated', path, b(c, 'deprecated'), p.get('deprecated'))
+    cmp_attrs(d, 'property', path, c, p)
     # the public API only answers the setter of a writable, non-construct-only property and the
     # getter of a readable one (documented in gipropertyinfo.c)
     if c.get('setter') is not None and b(c, 'writable') and not b(c, 'construct-only'):
@@ -1325,6 +1348,7 @@ def cmp_signal(d, path, c, s):
     d.flag('signal:action', path, b(c, 'action'), s.get('action'))
     d.flag('signal:no-hooks', path, b(c, 'no-hooks'), s.get('no_hooks'))
     d.flag('signal:deprecated', path, b(c, 'deprecated'), s.get('deprecated'))
+    cmp_attrs(d, 'glib:signal', path, c, s)
     cmp_callable(d, path, c, s, is_signal=True)
 
 
@@ -1353,6 +1377,7 @@ def cmp_vfunc(d, path, c, v):
     d.flag('vfunc:throws', path, b(c, 'throws'), v.get('v_throws'))
     if c.get('invoker') is not None:
         d.flag('vfunc:invoker', path, c.get('invoker'), v.get('invoker'))
+    cmp_attrs(d, 'virtual-method', path, c, v)
     cmp_callable(d, path, c, v)
 
 
@@ -1441,12 +1466,11 @@ def compare(gir_root, tl):
             others = [x.get('kind') for x in by_name.get(name, [])]
             d.add('absent:%s' % t, '%s: <%s> is introspectable in the GIR; typelib has %s' % (path, t, others or 'nothing of that name'))
             continue
+        cmp_attrs(d, t, path, e, a)
         if t == 'union':
-            # the compiler's bit and what the public API answers are reported separately
+            # C15 is about what the compiler wrote: the bit in the UnionBlob.  That g_base_info_is_deprecated() has no
+            # case for unions and answers FALSE is a defect of the repository API (gibaseinfo.c), judged by C09.
             d.flag('union.deprecated', path, b(e, 'deprecated'), a.get('deprecated_blob'))
-            if a.get('deprecated_blob') and not a.get('deprecated'):
-                d.add('api:union.deprecated:g_base_info_is_deprecated=0',
-                      '%s: the typelib has the deprecated bit, g_base_info_is_deprecated() answers FALSE for a union' % path)
         elif t not in ('function', 'callback'):
             d.flag('%s.deprecated' % t, path, b(e, 'deprecated'), a.get('deprecated'))
         if t == 'function':
@@ -1494,6 +1518,7 @@ def compare(gir_root, tl):
                     tv = gv    # enum storage is 32 bits: the same value modulo the storage width
                 d.flag('member:value', '%s.%s' % (path, m.get('name')), gv, tv)
                 d.flag('member:deprecated', '%s.%s' % (path, m.get('name')), b(m, 'deprecated'), v.get('deprecated'))
+                cmp_attrs(d, 'member', '%s.%s' % (path, m.get('name')), m, v)
             names = set(m.get('name') for m in kids(e, 'member'))
             for n in got:
                 if n not in names:
@@ -1583,6 +1608,16 @@ def classify_compiler(rc, err, root, state_names):
             out.append(('compiler:fatal:field-with-non-introspectable-callback', 'g-ir-compiler dies (%s): %s' % (symptom, err[-300:])))
         else:
             out.append(('compiler:fatal:%s' % symptom, 'g-ir-compiler dies: ' + err[-300:]))
+    elif rc != 0 and re.search(r'Unknown property (\S+):(\S+) for accessor (\S+)', err):
+        m = re.search(r'Unknown property (\S+):(\S+) for accessor (\S+)', err)
+        hidden_prop = root is not None and any(
+            hidden(p) and p.get('name') == m.group(2)
+            for c in list(root.iter(qn('class'))) + list(root.iter(qn('interface'))) if c.get('name') == m.group(1)
+            for p in kids(c, 'property'))
+        if hidden_prop:
+            out.append(('compiler:fatal:accessor-of-introspectable-0-property', 'g-ir-compiler dies: ' + err[-300:]))
+        else:
+            out.append(('compiler:fatal:unknown-property-for-accessor', 'g-ir-compiler dies: ' + err[-300:]))
     elif rc != 0 and "required attribute 'transfer-ownership' missing" in err and root is not None and any(
             rv.get('skip') == '1' and rv.get('transfer-ownership') is None for rv in root.iter(qn('return-value'))):
         out.append(('compiler:error:missing-transfer-ownership:return-value-skip', 'g-ir-compiler fails: ' + err[-300:]))
@@ -1722,7 +1757,10 @@ def judge_case(res, state_names):
                       % ('|'.join(STANDIN_NAMESPACES), '|'.join(STANDIN_NAMESPACES)), err)
         if m or re.search(r"(Could not find GIR file|Failed to parse included gir) '?(%s)" % '|'.join(STANDIN_NAMESPACES), err):
             return 'outside', 'standin-gap'
-    if rc == 0:
+    if rc == 0 and any(k == 'compiler:fatal:callback-in-union-field' for k, _ in probs):
+        # one defect, several symptoms: the typelib written after that warning is unusable (the repository API aborts on it)
+        pass
+    elif rc == 0:
         tl = res.get('walk')
         wrc = res.get('walk_rc')
         if tl is None:
@@ -1792,7 +1830,14 @@ def trace_compare(res, model, state_names):
 # ---------------------------------------------------------------------------------------------
 # mutants for the state-machine correspondence (NOT scanner outputs: never judged by the oracle)
 # ---------------------------------------------------------------------------------------------
-def mutate_gir(rng, text):
+# (container, member): places the writer never puts an element but the parser has a state for
+GRAFTS = [('interface', 'field'), ('glib:boxed', 'field'), ('class', 'constant'), ('interface', 'constant'), ('union', 'record'),
+          ('record', 'union'), ('class', 'record'), ('class', 'union'), ('enumeration', 'function'), ('bitfield', 'member'),
+          ('glib:boxed', 'method'), ('interface', 'callback'), ('record', 'glib:signal'), ('field', 'type'), ('type', 'doc'),
+          ('attribute', 'doc'), ('parameters', 'type'), ('return-value', 'attribute'), ('alias', 'doc'), ('member', 'attribute')]
+
+
+def mutate_gir(rng, text, graft=None):
     for prefix, uri in (('', CORE), ('c', CNS), ('glib', GLIBNS), ('doc', DOCNS)):
         ET.register_namespace(prefix, uri)
     try:
@@ -1802,6 +1847,16 @@ def mutate_gir(rng, text):
     nse = root.find(qn('namespace'))
     if nse is None:
         return None
+    if graft is not None:
+        dst = [e for e in nse.iter() if local(e.tag) == graft[0]]
+        src = [e for e in nse.iter() if local(e.tag) == graft[1]]
+        if not dst or not src:
+            return None
+        d_, s_ = rng.choice(dst), rng.choice(src)
+        if d_ in list(s_.iter()):
+            return None
+        d_.insert(rng.randint(0, len(d_)), copy.deepcopy(s_))
+        return '<?xml version="1.0"?>\n' + ET.tostring(root, encoding='unicode')
     els = [e for e in nse.iter()][1:]
     if not els:
         return None
@@ -2013,8 +2068,13 @@ def run(ctx):
                 continue
             c['gir'] = gir
         ready.append(c)
-    ctx.log('scanner ran on %d descriptions (%d refused)' % (len([c for c in cases if c.get('cfg') is not None]),
-                                                            len([c for c in cases if c.get('refused')])))
+    n_desc = len([c for c in cases if c.get('cfg') is not None])
+    n_refused = len([c for c in cases if c.get('refused')])
+    ctx.log('scanner ran on %d descriptions (%d refused)' % (n_desc, n_refused))
+    if n_desc and n_refused * 4 > n_desc:
+        why = [c['refused'] for c in cases if c.get('refused')][0]
+        ctx.broken.append('the scanner pipeline (harness/scanpipe.py: Transformer, MainTransformer, IntrospectablePass, GIRWriter) refuses '
+                          '%d of %d descriptions — it no longer exists in the form the harness drives, or dies: %s' % (n_refused, n_desc, why))
     with concurrent.futures.ThreadPoolExecutor(max_workers=8) as ex:
         results = list(ex.map(lambda c: process(env, c), ready))
     ctx.log('compiled / walked / traced %d GIRs' % len(results))
@@ -2091,6 +2151,14 @@ def run(ctx):
             t = mutate_gir(rng, src['gir'])
             if t is not None:
                 muts.append({'origin': 'mutant', 'name': 'm%d-of-%s' % (k, src['name']), 'gir': t})
+        # elements grafted where the writer never puts them (states no scanner output reaches)
+        for gi, graft in enumerate(GRAFTS * ctx.n(1, 6)):
+            for _try in range(12):
+                src = rng.choice(pool) if pool else None
+                t = mutate_gir(rng, src['gir'], graft) if src else None
+                if t is not None:
+                    muts.append({'origin': 'mutant', 'name': 'graft%d-%s-in-%s-of-%s' % (gi, graft[1], graft[0], src['name']), 'gir': t})
+                    break
 
         def trace_only(c):
             ns, ver = ns_of(c['gir'])
